@@ -47,7 +47,8 @@ def canon(n, env=None):
         x = strip(x)
         if x["k"] == "CallExpr" and x.get("callee") in CALL_SYMS:
             tag, idx = CALL_SYMS[x["callee"]]
-            return {"%s(%s)" % (tag, expr_str(strip(x["c"][idx]))): 1}
+            extra = [expr_str(strip(a)) for a in x["c"][idx + 1:]]
+            return {"%s(%s)" % (tag, "; ".join([expr_str(strip(x["c"][idx]))] + extra)): 1}
         return None
     n0 = strip(n)
     r = rewrite(n0)
@@ -130,7 +131,60 @@ def local_env(F):
     return env
 
 
+def stable_inputs_rule(ctx, rule, F, cursor):
+    """the size pass and the write pass of one function call the size / writer helpers with the same argument expressions; that
+    only pairs them if those expressions still mean the same thing in the second pass: no variable they mention (other than the
+    loop counters and the cursor) is written between the start of the first pass and the end of the last"""
+    calls = sorted([x for x in F.walk() if x["k"] == "CallExpr" and x.get("callee") in CALL_SYMS], key=lambda x: x["id"])
+    if len(calls) < 2:
+        return
+    def outer_loop(n):
+        lp = None
+        for a in F.ancestors(n):
+            if a["k"] in ("ForStmt", "WhileStmt", "DoStmt"):
+                lp = a
+        return lp
+    l0, l1 = outer_loop(calls[0]), outer_loop(calls[-1])
+    if l0 is None or l1 is None:
+        return
+    lo = min(x["id"] for x in walk_nodes(l0))
+    hi = max(x["id"] for x in walk_nodes(l1))
+    counters = set()
+    for lp in (l0, l1):
+        if lp.get("init") is not None:
+            for x in walk_nodes(F.nodes[lp["init"]]):
+                if x["k"] == "VarDecl":
+                    counters.add(x["name"])
+    names = set()
+    for c in calls:
+        for a in c["c"][1:]:
+            for x in walk_nodes(a):
+                if x["k"] == "DeclRefExpr" and x.get("dk") in ("local", "param", "staticlocal", "global"):
+                    names.add(x["name"])
+    names -= counters | {cursor}
+    written = {}
+    for n in F.walk():
+        if not (lo <= n["id"] <= hi):
+            continue
+        tgt = None
+        if n["k"] in ("BinaryOperator", "CompoundAssignOperator") and n.get("op", "").endswith("=") and n["op"] not in ("==", "!=", "<=", ">="):
+            tgt = strip(n["c"][0])
+        elif n["k"] == "UnaryOperator" and n["op"] in ("++", "--"):
+            tgt = strip(n["c"][0])
+        if tgt is None:
+            continue
+        while tgt["k"] in ("ArraySubscriptExpr", "MemberExpr") or (tgt["k"] == "UnaryOperator" and tgt["op"] == "*"):
+            tgt = strip(tgt["c"][0])
+        if tgt["k"] == "DeclRefExpr" and tgt["name"] in names:
+            written.setdefault(tgt["name"], []).append(n["l"][0])
+    ctx.ob(rule + "i", "%s: inputs of the paired size / write calls" % F.name, "what the size pass and the write pass hand to the helpers is not "
+           "modified between the two passes (otherwise the same expression may select a different, longer encoding when writing than "
+           "was counted)", not written, {"inputs": sorted(names), "written_between_passes": written})
+
+
 def pair_rule(ctx, rule, Fs, svar, Fw, cursor, init_size, what, strcpy_slack=False):
+    if Fs is Fw:
+        stable_inputs_rule(ctx, rule, Fs, cursor)
     sadv, _ = accumulate(Fs, svar, local_env(Fs))
     wadv, wwr, wtail = accumulate(Fw, cursor, local_env(Fw), is_cursor=True)
     # an early `return E` of the size function counts E for that context
@@ -175,8 +229,83 @@ def pair_rule(ctx, rule, Fs, svar, Fw, cursor, init_size, what, strcpy_slack=Fal
     return n
 
 
+def quoting_decision_rules(ctx, prog):
+    """Z6: which arguments get quoted.  By the Windows splitting rules (and the article the code cites) an argument must be quoted
+    when it is empty or contains a blank, tab, newline, vertical tab or double quote.  argument_should_escape is abstractly
+    interpreted on the empty string and on strings of arbitrary length >= 1 made of one such character throughout; it must answer
+    'quote' on each.  (Necessary conditions of the round trip; strings mixing plain and special characters are not decided.)"""
+    from ..absint import State
+    from ..models import fs
+    F = prog.fn("argument_should_escape")
+    pc = ("v", F.gdid(F.params[0]["did"]))
+    cases = [("the empty string", 0, 0)] + [("a string of %s only" % nm, c, 1) for nm, c in
+                                            (("blanks", 32), ("tabs", 9), ("newlines", 10), ("vertical tabs", 11), ("double quotes", 34))]
+    n = 0
+    for label, ch, nonempty in cases:
+        def m_len(I, fn, node, args, st, nonempty=nonempty):
+            return [(st, I.pos() if nonempty else fs(0))]
+        I = new_interp(prog, extra_models={"strlen": m_len})
+        I.K = sorted(set(I.K) | {9, 10, 11, 32, 34, 92})
+        I.Kset = set(I.K)
+        I.TOP_INT = frozenset(I.K) | {"NEG", "POS"}
+        base = ("g", "argument_under_test")
+        st = State()
+        st.mem[pc] = fs(("addr", ("i", base, 0)))
+        st.mem[("i", base, "*")] = fs(ch)
+        st.mem[("i", base, 0)] = fs(ch)
+        res = I.run(F, [st])
+        ctx.stats("E-ABS", I.stats)
+        rets = sorted({show(rv) for s_, rv in res.exits})
+        n += 1
+        ctx.ob("C18.Z6", "argument_should_escape [%s]" % label, "the argument is quoted: left bare it would vanish from the command line (empty) or "
+               "be split / have its quote consumed by the Windows parser", bool(res.exits) and all(rv == fs(1) for s_, rv in res.exits),
+               {"answers": rets}, nontrivial=True)
+    return n
+
+
+def parent_block_rule(ctx, prog):
+    """Z7: the parent's entries are those of this very start: what env_setup hands to env_concat as the first block is, on every
+    definition reaching it, NULL or the result of GetEnvironmentStringsW() called here - not a block remembered from earlier"""
+    Fe = prog.fn("env_setup")
+    cc = [x for x in Fe.calls("env_concat")]
+    if len(cc) != 1:
+        return
+    a0 = strip(cc[0]["c"][1])
+    var = a0.get("name") if a0["k"] == "DeclRefExpr" else None
+    defs = []
+    for n in Fe.walk():
+        if n["k"] == "VarDecl" and n["name"] == var and n.get("c"):
+            defs.append(strip(n["c"][0]))
+        elif n["k"] == "BinaryOperator" and n["op"] == "=" and expr_str(strip(n["c"][0])) == var:
+            defs.append(strip(n["c"][1]))
+
+    def fresh(x):
+        x = strip(x)
+        if x["k"] == "ConditionalOperator":
+            return fresh(x["c"][1]) and fresh(x["c"][2])
+        return x.get("null") or x.get("val") == 0 or x["k"] in ("GNUNullExpr",) or (x["k"] == "CallExpr" and x.get("callee") == "GetEnvironmentStringsW") \
+            or expr_str(x) in ("NULL", "((void *)0)", "0")
+    decl_static = [v for v in prog.vars if v.get("name") == var and v.get("func") == "env_setup"]
+    ctx.ob("C18.Z7", "env_setup: parent block", "the first block given to env_concat is NULL or what GetEnvironmentStringsW() returned during "
+           "this call (the parent's environment as it is now)", var is not None and defs and all(fresh(d) for d in defs) and not decl_static,
+           {"variable": var, "definitions": [expr_str(d)[:60] for d in defs]})
+    # no mutable state outlives a start in the Windows process code either
+    bad = []
+    for v in prog.vars:
+        if not v["file"].startswith(prog.root):
+            continue
+        if v["scope"] == "file" and v.get("def") and not v["const"]:
+            bad.append("%s (%s)" % (v["name"], prog.rel(v["file"])))
+        if v["scope"] != "file" and not v.get("extern") and not (v["tls"] or v["const"]):
+            bad.append("static %s in %s()" % (v["name"], v.get("func")))
+    ctx.ob("C18.Z7s", "process.windows.c / utf.windows.c: static storage", "no writable object with static storage (nothing is carried from one "
+           "start to the next)", not bad, {"objects": bad[:5]})
+
+
 def check(ctx):
     prog = win_prog(ctx)
+    quoting_decision_rules(ctx, prog)
+    parent_block_rule(ctx, prog)
     # ---- Z1 argument_escaped_size / argument_escape
     Fs, Fw = prog.fn("argument_escaped_size"), prog.fn("argument_escape")
     n = pair_rule(ctx, "C18.Z1", Fs, "size", Fw, "dest", 0, "escaped size versus escaping writer", strcpy_slack=True)
